@@ -6,7 +6,10 @@
 
 package templates
 
-//@ unit templates_handler props=C12 filter=`templates\.Templates\)\.ServeHTTP$`
+//@ unit templates_handler frames=on props=C12 filter=`templates\.Templates\)\.ServeHTTP$`
+//@ extern (*github.com/tmpim/casket/caskethttp/httpserver.ResponseBuffer).StatusCodeWriter
+//@ extern github.com/tmpim/casket/caskethttp/httpserver.NewContextWithHeader
+//@ extern (*github.com/tmpim/casket/caskethttp/httpserver.ResponseBuffer).CopyHeader
 //@ ghost pending int
 //@ ghost forwarded int
 //@ ghost nextCalls int
@@ -43,6 +46,7 @@ package templates
 //@   ensures result != nil
 
 //@ func (Templates).ServeHTTP
+//@   modifies ghost:blen, ghost:forwarded, ghost:nextCalls, ghost:nextRet, ghost:pending
 //@   may_panic
 //@   requires r != nil && r.URL != nil && t.Next != nil && t.BufPool != nil && w != nil && pending == 0
 //@   ensures [next_once] nextCalls == old(nextCalls) + 1
